@@ -266,6 +266,65 @@ func registerStrconvModels(e *Engine) {
 	}
 }
 
+func isSpaceTerm(b *Term) *Term {
+	return tOrN(tEq(b, mkBV(8, ' ')), tEq(b, mkBV(8, '\t')), tEq(b, mkBV(8, '\n')), tEq(b, mkBV(8, '\r')), tEq(b, mkBV(8, '\v')), tEq(b, mkBV(8, '\f')))
+}
+
+func registerTrimModels(e *Engine) {
+	e.intrinsics["strings.TrimSpace"] = func(x *Exec, fn *ssa.Function, a []Value) (Value, bool) {
+		s := a[0].(*StrVal)
+		if s.IsConcrete() {
+			return nil, false
+		}
+		al := x.pickAlt(s)
+		lo, hi := 0, al.Len()
+		for lo < hi && x.decide(isSpaceTerm(al.Byte(lo))) {
+			lo++
+		}
+		for hi > lo && x.decide(isSpaceTerm(al.Byte(hi-1))) {
+			hi--
+		}
+		if al.Sym == nil {
+			return mkStr(al.S[lo:hi]), true
+		}
+		return mkStrBytes(al.Sym[lo:hi]), true
+	}
+	// strconv.Atoi on symbolic ASCII text: valid iff [+-]?digits+ ; the value is the decimal reading
+	e.intrinsics["strconv.Atoi"] = func(x *Exec, fn *ssa.Function, a []Value) (Value, bool) {
+		s := a[0].(*StrVal)
+		if s.IsConcrete() {
+			return nil, false
+		}
+		al := x.pickAlt(s)
+		bad := func() (Value, bool) {
+			return TupleVal{mkBV(64, 0), x.errorValue("strconv.Atoi: parsing: invalid syntax")}, true
+		}
+		i, neg := 0, false
+		if al.Len() > 0 {
+			if x.decide(tEq(al.Byte(0), mkBV(8, '-'))) {
+				neg, i = true, 1
+			} else if x.decide(tEq(al.Byte(0), mkBV(8, '+'))) {
+				i = 1
+			}
+		}
+		if i >= al.Len() || al.Len()-i > 18 {
+			return bad()
+		}
+		v := mkBV(64, 0)
+		for ; i < al.Len(); i++ {
+			b := al.Byte(i)
+			if !x.decide(tAnd(bvCmp(OpULe, mkBV(8, '0'), b), bvCmp(OpULe, b, mkBV(8, '9')))) {
+				return bad()
+			}
+			v = bvBin(OpAdd, bvBin(OpMul, v, mkBV(64, 10)), tZExt(bvBin(OpSub, b, mkBV(8, '0')), 64))
+		}
+		if neg {
+			v = bvUn(OpNeg, v)
+		}
+		return TupleVal{v, nilIface}, true
+	}
+}
+
 func asciiLower(s string) string {
 	b := []byte(s)
 	for i, c := range b {
